@@ -49,6 +49,18 @@ def gen(ctx, tier, rng):
                 L.append("aead.%s.enc %s %s %s %s" % (name, hexs(m), hexs(ad), hexs(rb(rng, nb)), hexs(rb(rng, kb))))
             L.append("secretbox.xchacha.enc %s %s %s" % (hexs(m), hexs(rb(rng, 24)), hexs(rb(rng, 32))))
             L.append("secretbox.nacl.box %s %s %s" % (hexs(bytes(32) + m), hexs(rb(rng, 24)), hexs(rb(rng, 32))))
+    # long messages: past the points where a byte of a big-endian / little-endian block counter carries (256 blocks of 16 or 64 bytes),
+    # and long associated data likewise (the statement quantifies over all lengths; the quick tier takes the first carry of every cipher)
+    longs = [4063, 4064, 4065, 4095, 4096, 4097, 4111, 4112, 4113, 4200, 8191, 8192, 8193, 16383, 16384, 16385, 16500] + ([65535, 65536, 65537, 70001] if full else [])
+    for n in longs:
+        m = rb(rng, n)
+        for (name, kb, nb) in AEADS:
+            L.append("aead.%s.enc %s %s %s %s" % (name, hexs(m), hexs(rb(rng, rng.choice([0, 13, 16]))), hexs(rb(rng, nb)), hexs(rb(rng, kb))))
+        for v in ("xsalsa", "xchacha"):
+            L.append("secretbox.%s.enc %s %s %s" % (v, hexs(m), hexs(rb(rng, 24)), hexs(rb(rng, 32))))
+    for adl in (4095, 4096, 4097, 4112, 8200) + ((16385, 65537) if full else ()):
+        for (name, kb, nb) in AEADS:
+            L.append("aead.%s.enc %s %s %s %s" % (name, hexs(rb(rng, 33)), hexs(rb(rng, adl)), hexs(rb(rng, nb)), hexs(rb(rng, kb))))
     for n in range(0, 40):
         L.append("secretbox.nacl.box %s %s %s" % (hexs(bytes(n)), hexs(rb(rng, 24)), hexs(rb(rng, 32))))
     # every ad length across the internal block / aggregation boundaries (the property quantifies ad like the message:
